@@ -353,6 +353,12 @@ class Run:
         name, mis = file_name(info.fmt, namev, self.nop)
         if how == "stream":
             return io.BytesIO(info.blob), (lambda: None), False
+        if how == "stream-peeked":
+            # the caller looked at the stream first (read the signature, asked an imaging library for the size):
+            # the cursor is not at the start; the library rewinds a stream before reading it
+            st_ = io.BytesIO(info.blob)
+            st_.read([8, 1, len(info.blob) // 2, len(info.blob)][self.nop % 4])
+            return st_, (lambda: None), False
         if how == "samepath":
             # the caller re-writes one file (e.g. a plotting library saving to the same temp file) and
             # adds it again: the path is the same, the bytes are not
@@ -452,7 +458,8 @@ class Run:
             h = object()
         try:
             try:
-                slide.shapes.add_picture(arg, left, top, w, h)
+                with sut("C15:add_picture", allow=(TypeError, ValueError)):
+                    slide.shapes.add_picture(arg, left, top, w, h)
             except (TypeError, ValueError):
                 pass
             else:
@@ -886,7 +893,7 @@ def strategies():
                     st.sampled_from(IMG.FORMATS).flatmap(img_for),
                     st.sampled_from(IMG.FORMATS).flatmap(img_for),
                     st.fixed_dictionaries({"start": st.integers(0, 3)}))
-    how = st.sampled_from(["path", "stream", "file", "samepath", "samepath"])
+    how = st.sampled_from(["path", "stream", "file", "samepath", "samepath", "stream-peeked"])
     namev = st.integers(0, 4)
     emu = st.one_of(st.sampled_from([1, 2, 7, 12700, 914400, 1000000, 9144000, 51206400]),
                     st.integers(1, 20000000))
